@@ -1,6 +1,7 @@
 package main
 
 import (
+	"bytes"
 	"fmt"
 	"math"
 	"math/rand"
@@ -603,6 +604,28 @@ func runC19(c *Ctx, idx int) {
 			if kind, msg := checkAggregates(c, se, se.exp, true); kind != "" {
 				c.Violate(kind, map[string]interface{}{"experiment": se.brief(), "key": "after-reorder"}, "after the recorded generations were reversed in place: %s", msg)
 				return
+			}
+		}
+		// the aggregates of an experiment that was stored and restored into an Experiment value already in use (same number
+		// of trials, other content, every cached aggregate computed) are those of the stored generations
+		if i%4 == 1 {
+			var buf bytes.Buffer
+			if werr := se.exp.Write(&buf); werr == nil {
+				var used experiment.Experiment
+				for ti := range se.exp.Trials {
+					used.Trials = append(used.Trials, experiment.Trial{Id: 100 + ti, Duration: 777, Generations: experiment.Generations{
+						{Id: 0, TrialId: 100 + ti, Solved: true, WinnerNodes: 1, WinnerGenes: 2, WinnerEvals: 3, Diversity: 4}}})
+				}
+				for ti := range used.Trials {
+					_, _, _, _ = used.Trials[ti].WinnerStatistics()
+				}
+				if rerr := used.Read(&buf); rerr == nil {
+					c.Count("experiments.restored_into_used_value", 1)
+					if kind, msg := checkAggregates(c, se, &used, false); kind != "" {
+						c.Violate(kind, map[string]interface{}{"experiment": se.brief(), "key": "restored-into-used"}, "after the experiment was stored and restored into an Experiment value in use: %s", msg)
+						return
+					}
+				}
 			}
 		}
 		for k := range held {
